@@ -135,6 +135,8 @@ def cfg_constants(consts):
         elif isinstance(v, str) and v.startswith("<-"):
             lines.append("  %s %s" % (k, v))
             continue
+        elif isinstance(v, str):
+            v = json.dumps(v)
         lines.append("  %s = %s" % (k, v))
     return "\n".join(lines) + "\n"
 
